@@ -36,7 +36,7 @@ OPS_NOBLOCK = tuple(o for o in OPS if o != "block_plain")
 
 @st.composite
 def _case(draw, max_n):
-    nj = draw(gen.networks(max_n=max_n, core_weight=2, kinds=("maa", "deep", "diamond", "multi")))
+    nj = draw(gen.networks(max_n=max_n, core_weight=3, kinds=("maa", "deep", "diamond", "multi", "edge2", "edge2")))
     n = len(nj["names"])
     mode = draw(st.sampled_from(("faults", "limits", "limits", "blocklimits")))
     c = {"net": nj, "mode": mode}
